@@ -673,7 +673,8 @@ Qed.
 Lemma step_inv st f t o : Inv st f t -> good_opb sty o = true ->
   exists st' f' es, sstep w st f o = Ok (st', f', es) /\ Inv st' f' (feed w t es).
 Proof.
-  intros HI Hg. destruct o as [|i text nl|i text|i n|i n]; cbn [sstep good_opb] in *.
+  intros HI Hg. destruct o as [ind|i0 text0|i text nl|i text|i n|i n]; cbn [sstep good_opb] in *.
+  2: discriminate.      (* add_content alone is outside the class *)
   - (* create *)
     cbn [sstep_ansi]. eexists _, _, _. split; [reflexivity|].
     destruct HI as (-> & Hok & Hf). split; [|split; [|exact Hf]].
@@ -735,7 +736,8 @@ Qed.
 Definition plain_char (c : N) : Prop := c <> LT /\ c <> BSL /\ c <> ESC /\ c <> TAB.
 Definition plain_text (t : str) : Prop := Forall plain_char t.
 Definition plain_op (o : sop) : Prop :=
-  match o with SWrite _ t _ | SOverwrite _ t => plain_text t | SIndent _ n => n = 0 | _ => True end.
+  match o with SWrite _ t _ | SOverwrite _ t => plain_text t | SIndent _ n => n = 0 | SCreate ind => ind = 0
+             | SAddContent _ _ => False | _ => True end.
 
 Lemma lines_of_P (P : N -> Prop) s : Forall P s -> Forall (Forall P) (lines_of s).
 Proof.
@@ -771,7 +773,7 @@ Qed.
 Lemma plain_ops_good sty ops : Forall plain_op ops -> good_opsb sty ops = true.
 Proof.
   unfold good_opsb. intros H. apply forallb_forall. intros o Ho. rewrite Forall_forall in H. specialize (H o Ho).
-  destruct o; cbn [good_opb plain_op] in *; try reflexivity; apply plain_text_good, H.
+  destruct o; cbn [good_opb plain_op] in *; try reflexivity; try contradiction; apply plain_text_good, H.
 Qed.
 
 (* the content lines of a run of plain operations are the lines written: plain, not indented *)
@@ -789,7 +791,8 @@ Proof. intros H. rewrite <- (firstn_skipn n l) in H. apply Forall_app in H. taut
 Lemma step_ansi_content w st f o st' f' es : plain_op o -> all_content (Forall plain_char) st ->
   sstep_ansi w st f o = Ok (st', f', es) -> all_content (Forall plain_char) st'.
 Proof.
-  intros Ho Ha. destruct o as [|i text nl|i text|i n|i n]; cbn [sstep_ansi plain_op] in *.
+  intros Ho Ha. destruct o as [ind|i0 text0|i text nl|i text|i n|i n]; cbn [sstep_ansi plain_op] in *.
+  2: contradiction.
   - intros H. inversion H; subst. apply Forall_app. split; [exact Ha|]. repeat constructor.
   - destruct (nth_error st i) as [s|] eqn:Hn; [|intros H; inversion H; subst; exact Ha].
     destruct (all_content_nth _ st i s Hn Ha) as [Hc Hi]. rewrite Hi.
@@ -816,7 +819,7 @@ Qed.
 Lemma step_content w st f o st' f' es : plain_op o -> all_content (Forall plain_char) st ->
   sstep w st f o = Ok (st', f', es) -> all_content (Forall plain_char) st'.
 Proof.
-  intros Ho Ha. destruct o as [|i text nl|i text|i n|i n]; try apply (step_ansi_content w st f _ st' f' es Ho Ha).
+  intros Ho Ha. destruct o as [ind|i0 text0|i text nl|i text|i n|i n]; try apply (step_ansi_content w st f _ st' f' es Ho Ha).
   cbn [sstep]. destruct (sstep_ansi w st f (SClear i None)) as [[[st1 f1] e1]|e] eqn:E1; cbn [bind fst snd]; [|discriminate].
   pose proof (step_ansi_content w st f (SClear i None) st1 f1 e1 I Ha E1) as H1.
   destruct (sstep_ansi w st1 f1 (SWrite i text true)) as [[[st2 f2] e2]|e] eqn:E2; cbn [bind fst snd]; [|discriminate].
@@ -868,11 +871,13 @@ Qed.
 Lemma plain_degrades_lemma w ops : forall st f r, srun false w st f ops = Ok r -> forallb plain_emit (snd r) = true.
 Proof.
   induction ops as [|o r IH]; intros st f x; cbn [srun]; [intros H; inversion H; reflexivity|].
-  destruct (sstep_plain st f o) as [[[st1 f1] e1]|e] eqn:E1; cbn [bind fst snd]; [|discriminate].
+  destruct (sstep_plain w st f o) as [[[st1 f1] e1]|e] eqn:E1; cbn [bind fst snd]; [|discriminate].
   destruct (srun false w st1 f1 r) as [[[st2 f2] e2]|e] eqn:E2; cbn [bind fst snd]; [|discriminate].
   intros H. inversion H; subst. cbn [snd]. rewrite forallb_app. specialize (IH st1 f1 _ E2). cbn [snd] in IH. rewrite IH, Bool.andb_true_r.
-  destruct o as [|i text nl|i text|i n|i n]; cbn [sstep_plain] in E1.
+  destruct o as [ind|i0 text0|i text nl|i text|i n|i n]; cbn [sstep_plain] in E1.
   - inversion E1; reflexivity.
+  - unfold add_content_step in E1. destruct (nth_error st i0); [|inversion E1; reflexivity].
+    destruct (measure w f _ _) as [m|e]; cbn [bind] in E1; [|discriminate]. inversion E1; reflexivity.
   - destruct (nth_error st i); [|inversion E1; reflexivity].
     destruct (write_plain f _ text nl) as [y|e] eqn:EW; cbn [bind] in E1; [|discriminate]. inversion E1; subst. apply (write_plain_emits _ _ _ _ _ EW).
   - destruct (nth_error st i); [|inversion E1; reflexivity].
@@ -891,4 +896,34 @@ Proof.
   - apply (remove_format_ok sty f l _ Hf H3).
   - apply (deco_of_plain sty l _ f H2 H3 Hf).
   - cbn [measure]. destruct (remove_format_ok sty f l _ Hf H3) as (f' & E & Hf'). rewrite E. cbn [bind fst snd]. eauto.
+Qed.
+
+(* ---------- 12. the run told in full (srun_part) is the run ---------- *)
+Lemma srun_part_ok ansi w ops : forall st f st' f' es,
+  srun ansi w st f ops = Ok (st', f', es) <-> srun_part ansi w st f ops = (st', f', es, None).
+Proof.
+  induction ops as [|o r IH]; intros st f st' f' es; cbn [srun srun_part].
+  - split; intros H; inversion H; reflexivity.
+  - destruct (if ansi then sstep w st f o else sstep_plain w st f o) as [[[st1 f1] e1]|k]; cbn [bind fst snd].
+    2: split; discriminate.
+    specialize (IH st1 f1).
+    destruct (srun ansi w st1 f1 r) as [[[st2 f2] e2]|k2]; cbn [bind fst snd];
+      destruct (srun_part ansi w st1 f1 r) as [[[st3 f3] e3] [[j k3]|]]; cbn [option_map].
+    + pose proof (proj1 (IH st2 f2 e2) eq_refl) as X. discriminate X.
+    + pose proof (proj1 (IH st2 f2 e2) eq_refl) as X. inversion X; subst. split; intros H; inversion H; reflexivity.
+    + split; discriminate.
+    + pose proof (proj2 (IH st3 f3 e3) eq_refl) as X. discriminate X.
+Qed.
+(* ... and when a call raises, everything before it is the run of the calls before it *)
+Lemma srun_part_err ansi w ops : forall st f st' f' es j k,
+  srun_part ansi w st f ops = (st', f', es, Some (j, k)) ->
+  srun ansi w st f (firstn j ops) = Ok (st', f', es) /\
+  exists o, nth_error ops j = Some o /\ (if ansi then sstep w st' f' o else sstep_plain w st' f' o) = Err k.
+Proof.
+  induction ops as [|o r IH]; intros st f st' f' es j k; cbn [srun_part]; [discriminate|].
+  destruct (if ansi then sstep w st f o else sstep_plain w st f o) as [[[st1 f1] e1]|k1] eqn:E1; cbn [fst snd].
+  - destruct (srun_part ansi w st1 f1 r) as [[[st3 f3] e3] [[j3 k3]|]] eqn:E2; cbn [option_map fst snd]; [|discriminate].
+    intros H. inversion H; subst. destruct (IH _ _ _ _ _ _ _ E2) as (Hr & o' & Hn & He).
+    split; [|exists o'; split; assumption]. cbn [firstn srun]. rewrite E1. cbn [bind fst snd]. rewrite Hr. reflexivity.
+  - intros H. inversion H; subst. split; [reflexivity|]. exists o. split; [reflexivity|exact E1].
 Qed.
